@@ -767,6 +767,7 @@ func runC09(c *Ctx) {
 	nrel, _ := useAfterReleaseRule(c, p, p.ModuleFuncs(), "use-after-release", false)
 	r.Floor("use-after-release", nrel, 50, "release sites")
 	c09ResultOwned(c, p)
+	c09CapturedNode(c, p)
 	if c.Controls {
 		if cp := c.Control("c09"); cp != nil {
 			sub := *c
